@@ -75,7 +75,9 @@ PROBES = ['context_switch', 'cancel_fired', 'cancel_reissued', 'recursion_squeez
 ALL_FILES = ['layout.py', 'graph.py', 'transform.py', 'codec.py', 'model.py', '_parse.py', '_lexer.py', '_format.py',
              'tree.py', 'surface.py', 'constant.py', 'epigraph.py', 'exceptions.py', '__init__.py']
 FILE_SUBSETS = [None, None, ['layout.py', 'graph.py'], ['transform.py', 'layout.py', 'model.py'],
-                ['graph.py'], ['_parse.py', '_lexer.py', 'codec.py', 'layout.py'], ['layout.py']]
+                ['graph.py'], ['_parse.py', '_lexer.py', 'codec.py', 'layout.py'], ['layout.py'],
+                # pre-emption also inside copy.deepcopy (reconfigure, | and - copy their argument there)
+                ['stdlib:copy'], ['stdlib:copy', 'graph.py', 'layout.py']]
 
 # ---- operation catalogue ---------------------------------------------------------------------------
 # name -> (argument kinds)
